@@ -157,6 +157,12 @@ func check(c Case, st *rig.Stats) error {
 	nontriv := false
 	var classes []string
 	firedBefore := false
+	// the twin answers every request first, before any fault exists in this process: the context pool is
+	// process-wide, so a twin that ran interleaved with the subject would suffer the same damage
+	normals := make([]*rig.Outcome, len(c.Reqs))
+	for i, q := range c.Reqs {
+		normals[i] = base.serve(c, Rq{Method: q.Method, Path: q.Path, Sub: q.Sub}, nil)
+	}
 	for i, q := range c.Reqs {
 		var val any
 		switch q.Val {
@@ -171,7 +177,7 @@ func check(c Case, st *rig.Stats) error {
 		case "abort":
 			val = http.ErrAbortHandler
 		}
-		normal := base.serve(c, Rq{Method: q.Method, Path: q.Path, Sub: q.Sub}, nil)
+		normal := normals[i]
 		if normal.Panicked {
 			classes = append(classes, "baseline-panics(C05's-subject)")
 			continue
